@@ -637,8 +637,20 @@ func (lazy *SexpLazyArg) Force(env *Zlisp) (Sexp, error) {
 		return lazy.Value, nil
 	}
 
+	// compiled where the argument was written, like a strict argument: what
+	// the head of a form denotes there (a builder such as infix or func, a
+	// function) decides how the form is compiled.
+	callState := env.captureControlState()
+	if lazy.Stack != nil {
+		env.linearstack = lazy.Stack.Clone()
+	}
+	if lazy.CurFunc != nil {
+		env.curfunc = lazy.CurFunc
+	}
 	gen := NewGenerator(env)
-	if err := gen.Generate(lazy.Expr); err != nil {
+	err := gen.Generate(lazy.Expr)
+	env.restoreControlState(callState)
+	if err != nil {
 		return SexpNull, err
 	}
 	if len(gen.instructions) == 0 {
@@ -658,7 +670,6 @@ func (lazy *SexpLazyArg) Force(env *Zlisp) (Sexp, error) {
 	}
 	sfun.parent = lazy.CurFunc
 
-	callState := env.captureControlState()
 	if lazy.Stack != nil {
 		env.linearstack = lazy.Stack.Clone()
 	}
